@@ -9,7 +9,9 @@ SANS = 'DNS:origin.test,IP:127.0.0.1,IP:::1'
 
 
 def _run(*args):
-    subprocess.run(['openssl'] + list(args), check=True, capture_output=True)
+    r = subprocess.run([os.environ.get('VERIF_OPENSSL', 'openssl')] + list(args), capture_output=True)
+    if r.returncode != 0:
+        raise RuntimeError('openssl %s failed (%d): %s' % (' '.join(args[:2]), r.returncode, r.stderr.decode('utf-8', 'replace')[-600:]))
 
 
 def ensure():
@@ -37,7 +39,25 @@ def ensure():
              '-set_serial', str(abs(hash(name)) % 100000 + 2), '-extfile', p(name + '.ext'), '-out', p(name + '.pem'), *extra)
     leaf('trusted', SANS, ['-days', '365'])
     leaf('wrongname', 'DNS:other.test,IP:10.9.9.9', ['-days', '365'])
-    leaf('expired', SANS, ['-not_before', '20200101000000Z', '-not_after', '20200102000000Z'])
+    # an EXPIRED leaf: `x509 -req` can only set explicit dates from OpenSSL 3.4 on (-not_before/-not_after);
+    # `openssl ca -startdate/-enddate` works with every version (3.0.x is what /usr/bin provides here)
+    with open(p('expired.ext'), 'w') as f:
+        f.write('subjectAltName=%s\n' % SANS)
+    _run('req', '-new', '-key', p('origin-key.pem'), '-subj', '/CN=origin.test/O=verif origin', '-out', p('expired.csr'))
+    cadir = p('ca-work')
+    os.makedirs(os.path.join(cadir, 'new'))
+    open(os.path.join(cadir, 'index.txt'), 'w').close()
+    with open(os.path.join(cadir, 'serial'), 'w') as f:
+        f.write('1000\n')
+    with open(os.path.join(cadir, 'ca.cnf'), 'w') as f:
+        f.write('[ca]\ndefault_ca=CA_default\n[CA_default]\ndir=%s\ndatabase=$dir/index.txt\nnew_certs_dir=$dir/new\n'
+                'serial=$dir/serial\ndefault_md=sha256\npolicy=policy_any\nunique_subject=no\ncopy_extensions=none\n'
+                '[policy_any]\ncommonName=supplied\norganizationName=optional\n' % cadir)
+    _run('ca', '-batch', '-config', os.path.join(cadir, 'ca.cnf'), '-cert', p('oca-cert.pem'), '-keyfile', p('oca-key.pem'),
+         '-in', p('expired.csr'), '-out', p('expired.pem'), '-notext', '-extfile', p('expired.ext'),
+         '-startdate', '20200101000000Z', '-enddate', '20200102000000Z')
+    import shutil
+    shutil.rmtree(cadir, ignore_errors=True)
     # self-signed leaf (not issued by the origin CA)
     _run('req', '-new', '-x509', '-sha256', '-days', '365', '-key', p('origin-key.pem'), '-subj', '/CN=origin.test',
          '-addext', 'subjectAltName=' + SANS, '-out', p('selfsigned.pem'))
